@@ -46,7 +46,32 @@ fn strip_repo(loc: &str) -> String {
     }
 }
 
+thread_local! {
+    /// largest CPU time (ms) a single guarded API call of this thread has consumed
+    pub static MAX_CALL_CPU_MS: std::cell::Cell<u64> = const { std::cell::Cell::new(0) };
+}
+
+fn thread_cpu_ms() -> u64 {
+    let mut ts = libc::timespec { tv_sec: 0, tv_nsec: 0 };
+    unsafe {
+        libc::clock_gettime(libc::CLOCK_THREAD_CPUTIME_ID, &mut ts);
+    }
+    (ts.tv_sec as u64) * 1000 + (ts.tv_nsec as u64) / 1_000_000
+}
+
+pub fn take_max_call_cpu_ms() -> u64 {
+    MAX_CALL_CPU_MS.with(|m| m.replace(0))
+}
+
 fn guarded<T>(f: impl FnOnce() -> T) -> Result<T, String> {
+    let t0 = thread_cpu_ms();
+    let r = guarded_inner(f);
+    let dt = thread_cpu_ms().saturating_sub(t0);
+    MAX_CALL_CPU_MS.with(|m| m.set(m.get().max(dt)));
+    r
+}
+
+fn guarded_inner<T>(f: impl FnOnce() -> T) -> Result<T, String> {
     LAST_PANIC.with(|p| *p.borrow_mut() = None);
     let was = IN_GUARD.with(|g| g.replace(true));
     let r = catch_unwind(AssertUnwindSafe(f));
@@ -118,6 +143,7 @@ pub struct FreshResult {
     pub files_read: Vec<String>,
     pub resolved_to: Vec<String>,
     pub update_panic: Option<String>,
+    pub max_call_cpu_ms: u64,
 }
 
 /// A fresh simulated process: new thread (empty thread-local module cache), hash keys chosen by
@@ -192,6 +218,7 @@ pub fn fresh_process(fs: &Fs, entry: &str, settings: &Settings, v: &Variant) -> 
                 files_read: st.files_read.iter().cloned().collect(),
                 resolved_to,
                 update_panic,
+                max_call_cpu_ms: take_max_call_cpu_ms(),
             }
         })
         .expect("spawn fresh process thread");
